@@ -730,6 +730,9 @@ def run(ctx, res):
     res.guard(rule_bin2_pitch, prog, res)
     res.guard(rule_vec_align, prog, res)
     res.guard(rule_clamp_fresh, prog, res, LockAnalysis(prog))
+    from ..freelive import rule_free_live
+    res.guard(rule_free_live, prog, res, "simulated.camera.c")
+    res.require_min("O-FREE-LIVE", 2)
     res.require_min("R-CLAMP-FRESH", 1)
     res.require_min("R-VEC-ALIGN", 1)
     res.require_min("O-PROV", 4)
